@@ -7,6 +7,7 @@ import (
 	"errors"
 	"fmt"
 	"io"
+	"strings"
 	"testing/iotest"
 
 	"github.com/ohler55/ojg/gen"
@@ -39,6 +40,17 @@ func Chunked(b []byte, mode string) io.Reader {
 	case "1":
 		return iotest.OneByteReader(bytes.NewReader(b))
 	}
+	if strings.HasPrefix(mode, "sizes:") {
+		var sizes []int
+		for _, f := range strings.Split(mode[6:], ",") {
+			var k int
+			fmt.Sscanf(f, "%d", &k)
+			if k > 0 {
+				sizes = append(sizes, k)
+			}
+		}
+		return &sizesReader{b: b, sizes: sizes}
+	}
 	var n int
 	if _, err := fmt.Sscanf(mode, "split:%d", &n); err == nil {
 		return &splitReader{b: b, at: n}
@@ -47,6 +59,32 @@ func Chunked(b []byte, mode string) io.Reader {
 		return &fixedReader{b: b, n: n}
 	}
 	panic("bad chunk mode " + mode)
+}
+
+// sizesReader delivers successive reads of the given sizes (a composition of len(b)); anything left over comes in one read.
+type sizesReader struct {
+	b     []byte
+	sizes []int
+}
+
+func (r *sizesReader) Read(p []byte) (int, error) {
+	if len(r.b) == 0 {
+		return 0, io.EOF
+	}
+	n := len(r.b)
+	if len(r.sizes) > 0 {
+		n = r.sizes[0]
+		r.sizes = r.sizes[1:]
+	}
+	if n > len(r.b) {
+		n = len(r.b)
+	}
+	if n > len(p) {
+		n = len(p)
+	}
+	copy(p, r.b[:n])
+	r.b = r.b[n:]
+	return n, nil
 }
 
 type fixedReader struct {
@@ -187,9 +225,26 @@ func Call(api string, chunk string, in []byte, wantValue bool) (o Obs) {
 			v = n
 		}
 	case "sen.Parse":
-		v, err = sen.Parse(b)
+		// a fresh Parser: the package-level function recycles pooled instances, which is C07's subject
+		p := sen.Parser{}
+		v, err = p.Parse(b)
 	case "sen.ParseReader":
+		p := sen.Parser{}
+		v, err = p.ParseReader(Chunked(b, chunk))
+	case "sen.Parse(pooled)":
+		v, err = sen.Parse(b)
+	case "sen.ParseReader(pooled)":
 		v, err = sen.ParseReader(Chunked(b, chunk))
+	case "sen.Tokenize1":
+		t := sen.Tokenizer{OnlyOne: true}
+		h := &BuildHandler{}
+		err = t.Parse(b, h)
+		v = h.Result()
+	case "sen.TokenizeLoad1":
+		t := sen.Tokenizer{OnlyOne: true}
+		h := &BuildHandler{}
+		err = t.Load(Chunked(b, chunk), h)
+		v = h.Result()
 	case "sen.Tokenize":
 		h := &BuildHandler{}
 		err = sen.Tokenize(b, h)
